@@ -40,6 +40,65 @@ func (o Outcome) Class() string {
 // "dagcbor" (relaxed decode of a raw encoding: duplicate keys reach the assembler).
 var FeedRoutes = []string{"entry", "keyvalue", "dagcbor"}
 
+// FeedVariants: the ways a route is driven. The "-nohint" variants begin every map and list with size
+// hint -1, as a decoder of a format without length prefixes (dag-json) does; they are reported under
+// their base route.
+// AllVariants: the thorough tier also drives the key/value route without hints.
+var AllVariants = false
+
+func FeedVariants(route string) []string {
+	switch route {
+	case "entry":
+		return []string{"entry", "entry-nohint"}
+	case "keyvalue":
+		if AllVariants {
+			return []string{"keyvalue", "keyvalue-nohint"}
+		}
+	}
+	return []string{route}
+}
+
+// assignHinted is the entry route (AssembleEntry) or the key/value route with every size hint -1.
+func assignHinted(na datamodel.NodeAssembler, v ref.Val, entry bool) error {
+	switch v.K {
+	case ref.KList:
+		la, err := na.BeginList(-1)
+		if err != nil {
+			return err
+		}
+		for _, c := range v.L {
+			if err := assignHinted(la.AssembleValue(), c, entry); err != nil {
+				return err
+			}
+		}
+		return la.Finish()
+	case ref.KMap:
+		ma, err := na.BeginMap(-1)
+		if err != nil {
+			return err
+		}
+		for _, e := range v.M {
+			var va datamodel.NodeAssembler
+			if entry {
+				va, err = ma.AssembleEntry(e.K)
+				if err != nil {
+					return err
+				}
+			} else {
+				if err := ma.AssembleKey().AssignString(e.K); err != nil {
+					return err
+				}
+				va = ma.AssembleValue()
+			}
+			if err := assignHinted(va, e.V, entry); err != nil {
+				return err
+			}
+		}
+		return ma.Finish()
+	}
+	return ref.Assign(na, v)
+}
+
 func assignKV(na datamodel.NodeAssembler, v ref.Val) error {
 	switch v.K {
 	case ref.KList:
@@ -82,6 +141,10 @@ func Feed(eng Engine, s *rs.Schema, typeName string, repr bool, route string, in
 			err = ref.Assign(nb, in)
 		case "keyvalue":
 			err = assignKV(nb, in)
+		case "entry-nohint":
+			err = assignHinted(nb, in, true)
+		case "keyvalue-nohint":
+			err = assignHinted(nb, in, false)
 		case "dagcbor":
 			enc, e := ref.CborEncodeRaw(in)
 			if e != nil {
